@@ -49,7 +49,7 @@ inline long long RowLegalizer::getDisplacement(int width, int targetPos,
     cumWidth_.push_back(width + usedSpace());
     constrainingPos_.push_back(finalAbsPos);
     if (slope > 0) {  // Remaining capacity of an encountered bound
-      bounds.push(Bound(slope, cur_pos));
+      bounds.push(Bound(slope, finalAbsPos));
     }
     // The new bound, depending on whether it was passed or not
     if (targetAbsPos > begin_) {
